@@ -698,11 +698,62 @@ def getitem(o, i):
     return o[i]
 
 
+class SDict:
+    """Dictionary with symbolic keys: an ordered list of (key, value) pairs
+    whose keys are pairwise distinct by construction (the harness assumes
+    it); lookups compare keys with == (SBool) instead of hashing."""
+
+    def __init__(self, pairs=()):
+        self.pairs = list(pairs)
+
+    def _symx_contains_(self, key):
+        return Or(*[k == key for k, _ in self.pairs])
+
+    def __contains__(self, key):
+        return bool(self._symx_contains_(key))
+
+    def __getitem__(self, key):
+        for k, v in self.pairs:
+            if k == key:            # forks in insertion order
+                return v
+        raise KeyError('<sym>')
+
+    def get(self, key, default=None):
+        for k, v in self.pairs:
+            if k == key:
+                return v
+        return default
+
+    def __setitem__(self, key, value):
+        for i, (k, v) in enumerate(self.pairs):
+            if k == key:
+                self.pairs[i] = (k, value)
+                return
+        self.pairs.append((key, value))
+
+    def __len__(self):
+        return len(self.pairs)
+
+    def items(self):
+        return list(self.pairs)
+
+    def values(self):
+        return [v for _, v in self.pairs]
+
+    def keys(self):
+        return [k for k, _ in self.pairs]
+
+
+PROXY_TYPES.add(SDict)
+
+
 def contains(c, x):
     if core._cur is None:
         return x in c
     tc = type(c)
     tx = type(x)
+    if tc is SDict:
+        return c._symx_contains_(x)
     if tc in PROXY_TYPES:
         if tc is MSeq:
             raise Unsupported('containment in symbolic-length sequence')
